@@ -32,6 +32,13 @@ class NoneT(T):
     pass
 
 
+class PathStr(T):
+    """A str naming a file in the ghost file system. exists: True / False / None (either)."""
+
+    def __init__(self, exists=None):
+        self.exists = exists
+
+
 class Const(T):
     def __init__(self, value):
         self.value = value
@@ -121,6 +128,17 @@ def make_value(it, t, name: str) -> V:
         s = it.fresh_str(name)
         it.assume(z3.Length(s.e) < MAXLEN)
         return s
+    if isinstance(t, PathStr):
+        s = it.fresh_str(name)
+        it.assume(z3.Length(s.e) < MAXLEN)
+        it.assume(z3.Length(s.e) > 0)
+        if t.exists is True:
+            it.assume(z3.Select(it.fs_exists, s.e))
+        elif t.exists is False:
+            it.assume(z3.Not(z3.Select(it.fs_exists, s.e)))
+        it.path_params = getattr(it, "path_params", {})
+        it.path_params[name] = s
+        return s
     if isinstance(t, NoneT):
         return NONE
     if isinstance(t, Const):
@@ -200,6 +218,8 @@ def snapshot(v: V, memo=None):
         memo[id(v)] = r
         r.f = {k: snapshot(x, memo) if isinstance(x, V) else x for k, x in v.f.items()}
         return r
+    if isinstance(v, VSeq):
+        return VSeq(v.kind, v.e)
     if isinstance(v, VTag):
         return VTag(v.tag, snapshot(v.value, memo))
     if isinstance(v, VTuple):
